@@ -19,10 +19,12 @@ from beartype.roar import BeartypeCallHintViolation, BeartypeDoorHintViolation  
 CONFS = {}
 
 
-def conf_of(is_random):
-    if is_random not in CONFS:
-        CONFS[is_random] = BeartypeConf(is_random=is_random)
-    return CONFS[is_random]
+def conf_of(is_random, strategy='O1'):
+    from beartype import BeartypeStrategy
+    key = (is_random, strategy)
+    if key not in CONFS:
+        CONFS[key] = BeartypeConf(is_random=is_random, strategy=getattr(BeartypeStrategy, strategy))
+    return CONFS[key]
 
 
 def py_sat(h, o):
@@ -99,12 +101,12 @@ def snapshot(o, depth=0):
         return ['error', repr(e)]
 
 
-def run_one(hint, hint_py, value, draw, is_random, entry):
+def run_one(hint, hint_py, value, draw, is_random, entry, strategy='O1'):
     spy = U.Spy()
     labels = []
     obj = U.to_python(value, U.make_spy_classes(spy), labels)
     spy.log.clear()      # constructors of dict subclasses call __setitem__/update
-    conf = conf_of(is_random)
+    conf = conf_of(is_random, strategy)
     DRAW[0] = draw
     try:
         if entry == 'is_bearable':
@@ -171,7 +173,8 @@ def main():
         for draw in case['draws']:
             per = {}
             for entry in case.get('entries', ['is_bearable']):
-                per[entry] = run_one(case['hint'], hint_py, case['value'], draw, case['is_random'], entry)
+                per[entry] = run_one(case['hint'], hint_py, case['value'], draw, case['is_random'], entry,
+                                     case.get('strategy', 'O1'))
             res['runs'].append(per)
         out.append(res)
     print(json.dumps(out))
